@@ -145,6 +145,8 @@ pub struct Dev {
     pub medium: Medium,
     pub mtu: usize,
     pub caps: ChecksumCapabilities,
+    /// DeviceCapabilities::max_burst_size
+    pub burst: Option<usize>,
 }
 pub struct DevRx(Vec<u8>);
 pub struct DevTx<'a>(&'a mut Vec<Vec<u8>>);
@@ -176,6 +178,7 @@ impl Device for Dev {
         c.medium = self.medium;
         c.max_transmission_unit = self.mtu;
         c.checksum = self.caps.clone();
+        c.max_burst_size = self.burst;
         c
     }
 }
@@ -212,8 +215,12 @@ pub struct World {
 impl World {
     /// `ip_mtu`: IP MTU (the Ethernet device gets +14). `buf`: socket buffer payload size.
     pub fn new(medium: Medium, caps: Caps, ip_mtu: usize, buf: usize) -> World {
+        World::new_ext(medium, caps, ip_mtu, buf, None, buf)
+    }
+    /// `burst`: DeviceCapabilities::max_burst_size; `tcp_rx`: receive buffer size of the TCP sockets
+    pub fn new_ext(medium: Medium, caps: Caps, ip_mtu: usize, buf: usize, burst: Option<usize>, tcp_rx: usize) -> World {
         let mtu = if medium == Medium::Ethernet { ip_mtu + 14 } else { ip_mtu };
-        let mut dev = Dev { rx: VecDeque::new(), tx: vec![], medium, mtu, caps: caps.mk() };
+        let mut dev = Dev { rx: VecDeque::new(), tx: vec![], medium, mtu, caps: caps.mk(), burst };
         let hw = match medium {
             Medium::Ethernet => HardwareAddress::Ethernet(EthernetAddress(MY_MAC)),
             _ => HardwareAddress::Ip,
@@ -238,10 +245,10 @@ impl World {
         );
         ic.bind(icmp::Endpoint::Ident(ICMP_IDENT)).unwrap();
         let icmp = sockets.add(ic);
-        let mut tl = tcp::Socket::new(tcp::SocketBuffer::new(vec![0u8; buf]), tcp::SocketBuffer::new(vec![0u8; buf]));
+        let mut tl = tcp::Socket::new(tcp::SocketBuffer::new(vec![0u8; tcp_rx]), tcp::SocketBuffer::new(vec![0u8; buf]));
         tl.listen(TCP_LISTEN).unwrap();
         let tcp_l = sockets.add(tl);
-        let tx = tcp::Socket::new(tcp::SocketBuffer::new(vec![0u8; buf]), tcp::SocketBuffer::new(vec![0u8; buf]));
+        let tx = tcp::Socket::new(tcp::SocketBuffer::new(vec![0u8; tcp_rx]), tcp::SocketBuffer::new(vec![0u8; buf]));
         let tcp_x = sockets.add(tx);
         let mut w = World { dev, iface, sockets, now_ms: 1000, medium, udp, icmp, tcp_l, tcp_x, boot_frames: vec![] };
         w.poll();
